@@ -118,14 +118,21 @@ theorem cache_transparent {K R : Type} (compute : K → R) (ops : List (Memo.Op 
   Memo.reads_eq_spec compute ops g hr hg
 
 /-- … and that is how the setters of `Graph` in /repo are written now (table extracted on this run). -/
-theorem setters_reset : Memo.settersOk Generated.GraphSetters.setters = true := by decide
+theorem setters_reset :
+    Memo.settersOk Generated.GraphSetters.builderReads Generated.GraphSetters.setters = true := by decide
 
 /-- `_get_build_result` is `if cache is None: cache = compute; return cache`. -/
 theorem memo_guarded : Generated.GraphSetters.memoGuarded = true := by decide
 
-/-- The Builder reads nothing of a Graph but its requested results and arguments. -/
-theorem builder_reads_known :
-    Generated.GraphSetters.builderReads.all (fun r => Memo.knownBuilderReads.contains r) = true := by decide
+/-- Every attribute of a Graph that `_build.py` reads is one this model knows: a field (then part of
+    the key, and `setters_reset` demands that its setters reset the cache) or a method that puts no
+    field into the build result. -/
+theorem builder_reads_known : Memo.readsKnown Generated.GraphSetters.builderReads = true := by decide
+
+/-- The key is not empty and contains what the statement is about: requested results and arguments. -/
+theorem key_has_results_and_arguments :
+    (Memo.keyFieldsOf Generated.GraphSetters.builderReads).contains "_results" = true ∧
+    (Memo.keyFieldsOf Generated.GraphSetters.builderReads).contains "_arguments" = true := by decide
 
 /-- A key-changing setter that shares the cache (the pinned `with_arguments`) returns stale results. -/
 theorem cache_stale_counterexample :
